@@ -105,6 +105,19 @@ var mgWants = []mgWant{
 	{"internal/progress/stats.go", "Stats", "Snapshot", "", "stats_Snapshot"},
 	{"internal/progress/stats.go", "Stats", "Total", "", "stats_Total"},
 	{"internal/progress/average.go", "DurationStats", "Record", "", "durationStats_Record"},
+	{"internal/trigger/api/iteration_worker.go", "", "NewIterationWorker", "return", "api_iterationWorker"},
+	{"internal/workers/pool_manager.go", "PoolManager", "WaitForCompletion", "", "manager_WaitForCompletion"},
+	{"internal/workers/pool_manager.go", "PoolManager", "WaitForCompletion", "#0", "manager_waiter"},
+	{"internal/trigger/file/stages_worker.go", "", "runStage", "#0", "file_stageGoroutine"},
+	{"internal/trigger/file/stages_worker.go", "", "setEnvs", "", "file_setEnvs"},
+	{"internal/trigger/file/stages_worker.go", "", "unsetEnvs", "", "file_unsetEnvs"},
+	{"internal/trigger/file/stages_worker.go", "", "runStage", "", "file_runStage"},
+	{"internal/trigger/users/users_rate.go", "", "NewWorker", "return", "users_NewWorker"},
+	{"internal/trigger/users/users_rate.go", "", "Rate", "#0/trigger", "users_trigger"},
+	{"internal/raterun/runner.go", "Runner", "Start", "#0", "runner_loop"},
+	{"internal/run/test_runner.go", "", "newProgressRunner", "#0", "run_progressTick"},
+	{"internal/run/test_runner.go", "", "newProgressRunner", "#0/#0", "run_progressWarn"},
+	{"internal/run/test_runner.go", "Run", "Do", "#0", "run_metricsLoop"},
 	{"internal/run/test_runner.go", "Run", "run", "", "run_run"},
 	{"internal/run/test_runner.go", "Run", "Do", "", "run_Do"},
 	{"internal/run/test_runner.go", "Run", "teardownActiveScenario", "", "run_teardown"},
@@ -714,6 +727,15 @@ func (c *mgCtx) callStmt(call *ast.CallExpr, deferred bool) string {
 			return "(.deferRecover " + leanStr(c.text(call.Fun)) + ")"
 		}
 	}
+	if id, isId := call.Fun.(*ast.Ident); isId && len(call.Args) >= 1 && deferred && c.rename[id.Name] == "" && id.Name != "close" {
+		// defer f(args): the arguments are evaluated now, the call happens when the function leaves
+		var parts []string
+		for _, a := range call.Args {
+			parts = append(parts, "(.eval "+c.expr(a)+")")
+		}
+		parts = append(parts, "(.deferEffect "+leanStr(id.Name+"(…)")+")")
+		return seq(parts)
+	}
 	if id, isId := call.Fun.(*ast.Ident); isId && len(call.Args) >= 2 && !deferred {
 		return "(.callS [] " + leanStr(id.Name) + " \"\" " + c.exprList(call.Args) + ")"
 	}
@@ -830,6 +852,9 @@ func (c *mgCtx) stmt(s ast.Stmt) string {
 		if u, ok := x.X.(*ast.UnaryExpr); ok && u.Op == token.ARROW { // <-ch: wait for the channel
 			if p := c.path(u.X); p != "" {
 				return "(.effect " + leanStr("receive "+p) + ")"
+			}
+			if _, isCall := u.X.(*ast.CallExpr); isCall { // <-x.Done(): the channel is the result of a call
+				return "(.effect " + leanStr("receive "+c.src(u.X)) + ")"
 			}
 		}
 		return c.unsupportedS(s)
@@ -1010,6 +1035,13 @@ func (c *mgCtx) stmt(s ast.Stmt) string {
 		}
 		return r
 	case *ast.ForStmt:
+		if x.Init == nil && x.Post == nil && x.Cond == nil && !hasBranch(x.Body) {
+			// for { … }: left only by return (or a panic)
+			c.inLoop++
+			r := "(.while (.bool true)\n  " + c.block(x.Body.List) + ")"
+			c.inLoop--
+			return r
+		}
 		if x.Init == nil && x.Post == nil && x.Cond != nil {
 			c.inLoop++
 			r := "(.while " + c.expr(x.Cond) + "\n  " + c.block(x.Body.List) + ")"
@@ -1145,8 +1177,16 @@ func (c *mgCtx) stmt(s ast.Stmt) string {
 		*c.loopN++
 		iv, nv := "$i"+k, "$n"+k
 		var body []string
+		isMap := false
+		if xid, ok := x.X.(*ast.Ident); ok && c.mapTyped(xid.Name) {
+			isMap = true
+		}
 		if id, ok := x.Key.(*ast.Ident); ok && id.Name != "_" {
-			body = append(body, "(.assign "+leanStr(c.path(id))+" (.var "+leanStr(iv)+"))")
+			if isMap {
+				body = append(body, "(.assign "+leanStr(c.path(id))+" (.index "+leanStr(arr)+" (.var "+leanStr(iv)+") \"key\"))")
+			} else {
+				body = append(body, "(.assign "+leanStr(c.path(id))+" (.var "+leanStr(iv)+"))")
+			}
 		} else if x.Key != nil && !ok {
 			return c.unsupportedS(s)
 		}
@@ -1247,6 +1287,24 @@ var intTypes = map[string]bool{"int": true, "int64": true, "uint64": true, "int3
 
 // is the local or parameter `name` of the function being translated declared with an integer type? Parameters by their
 // declared type; locals defined from a call by the declared result type of a function or method of that name in the package
+// a parameter declared with a map type: ranging over it yields keys, not indices (the model keeps a map as a list of
+// (key, value) entries in the order this particular iteration visits them - any order, as Go promises none)
+func (c *mgCtx) mapTyped(name string) bool {
+	fd, ok := c.body.(*ast.FuncDecl)
+	if !ok {
+		return false
+	}
+	for _, p := range fd.Type.Params.List {
+		for _, nm := range p.Names {
+			if nm.Name == name {
+				_, isMap := p.Type.(*ast.MapType)
+				return isMap
+			}
+		}
+	}
+	return false
+}
+
 func (c *mgCtx) intTyped(name string) bool {
 	fd, ok := c.body.(*ast.FuncDecl)
 	if !ok {
@@ -1526,6 +1584,29 @@ func translateMiniGo(repo string) string {
 							break
 						}
 					}
+				}
+				if strings.HasPrefix(step, "#") { // "#k": the k-th function literal of this statement list, in source order
+					k, _ := strconv.Atoi(step[1:])
+					var found *ast.FuncLit
+					n := 0
+					for _, st2 := range list {
+						ast.Inspect(st2, func(nd ast.Node) bool {
+							if fl, ok := nd.(*ast.FuncLit); ok {
+								if n == k && found == nil {
+									found = fl
+								}
+								n++
+								return false
+							}
+							return true
+						})
+						if found != nil {
+							break
+						}
+						init = append(init, st2)
+					}
+					lit = found
+					break
 				}
 				if rs, ok := st.(*ast.ReturnStmt); ok && step == "return" && len(rs.Results) == 1 {
 					if fl, ok := rs.Results[0].(*ast.FuncLit); ok {
